@@ -45,8 +45,21 @@ def case_s():
                     {"op": "emit", "s": snd, "t": t3, "plen": 7}, {"op": "emit", "s": snd, "t": "other", "plen": 2}]
         scenario = st.tuples(st.integers(0, n - 1), st.integers(1, n - 1), st.sampled_from(["cam", "vam", "other"]), st.sampled_from(["cam", "vam"]),
                              st.sampled_from([0, 100, 500, 900]), st.sampled_from([0, 50, 90]), st.sampled_from(["cam", "vam"])).map(scen)
+        def scen_bystander(args):
+            # a is asked for its certificate by the late joiner c; before a's next CAM/VAM it verifies a CAM/VAM of the bystander b whose
+            # own inline request names only c's ticket (b missed c's certificate): the pending request for a's certificate must survive
+            perm, t1, t2, t3, t4, g = args
+            a, b, c = perm
+            return [{"op": "leave", "s": c}, {"op": "emit", "s": a, "t": "cam", "plen": 4}, {"op": "emit", "s": b, "t": "cam", "plen": 4},
+                    {"op": "leave", "s": b}, {"op": "join", "s": c}, {"op": "emit", "s": c, "t": "cam", "plen": 4}, {"op": "join", "s": b},
+                    {"op": "adv", "ms": g}, {"op": "emit", "s": c, "t": t1, "plen": 2}, {"op": "emit", "s": a, "t": t2, "plen": 2},
+                    {"op": "adv", "ms": g}, {"op": "emit", "s": c, "t": t3, "plen": 3}, {"op": "emit", "s": b, "t": t4, "plen": 3},
+                    {"op": "emit", "s": a, "t": "cam", "plen": 6}, {"op": "emit", "s": a, "t": "other", "plen": 1}]
+        cv = st.sampled_from(["cam", "vam"])
+        bystander = st.tuples(st.permutations(list(range(n))).map(lambda p_: p_[:3]), cv, st.sampled_from(["cam", "vam", "other"]), cv, cv,
+                              st.sampled_from([0, 50, 100, 300])).map(scen_bystander) if n >= 3 else scenario
         single = step.map(lambda x: [x])
-        steps = st.lists(st.one_of(single, single, single, scenario), min_size=1, max_size=25).map(lambda ll: [x for l in ll for x in l][:40])
+        steps = st.lists(st.one_of(single, single, single, scenario, bystander), min_size=1, max_size=25).map(lambda ll: [x for l in ll for x in l][:40])
         return st.fixed_dictionaries({"n": st.just(n), "preload": st.sampled_from([False, False, False, True]), "restricted_last": st.booleans(),
                                       "late": st.lists(st.integers(0, n - 1), max_size=3), "steps": steps})
     return st.integers(2, 4).flatmap(build)
@@ -160,6 +173,8 @@ def run_case(case):
                 if t in ("cam", "vam") and expect and dig[r][-3:] in info["inline"]:
                     asked[r] = True
                     labels.add("p2pcd-request-heard")
+                elif t in ("cam", "vam") and expect and info["inline"] and asked[r]:
+                    labels.add("foreign-p2pcd-request-while-asked")
             # a station that failed on some sender must ask in its own next CAM/VAM
             if t in ("cam", "vam"):
                 for x in range(n):
